@@ -3,8 +3,8 @@ package props
 import (
 	"fmt"
 	"go/token"
-	"sort"
 	"go/types"
+	"sort"
 	"strings"
 
 	"golang.org/x/tools/go/ssa"
@@ -35,13 +35,13 @@ type tlInfo struct {
 	Views    []pkgView
 	problems []string
 
-	owner       map[*types.Var]string          // channel field → name of the struct that declares it
-	Containers  []*types.Var                   // slice fields of TaskLane that hold the per-lane objects
-	GoRole      map[*ssa.Go]string             // go statement → "queue" | "worker"
-	QueueEntry  *ssa.Function                  // the functions the go statements start (a wrapper closure, or the body itself)
+	owner       map[*types.Var]string // channel field → name of the struct that declares it
+	Containers  []*types.Var          // slice fields of TaskLane that hold the per-lane objects
+	GoRole      map[*ssa.Go]string    // go statement → "queue" | "worker"
+	QueueEntry  *ssa.Function         // the functions the go statements start (a wrapper closure, or the body itself)
 	WorkerEntry *ssa.Function
-	WorkerLoop  *ssa.Function                  // where the worker's selects and its task loop live (the body, or a per-run frame it calls)
-	bind        map[*ssa.Parameter]ssa.Value   // parameters of goroutine bodies → the values passed where they are started
+	WorkerLoop  *ssa.Function                // where the worker's selects and its task loop live (the body, or a per-run frame it calls)
+	bind        map[*ssa.Parameter]ssa.Value // parameters of goroutine bodies → the values passed where they are started
 }
 
 func (t *tlInfo) fieldKey(f *types.Var) string {
@@ -151,8 +151,8 @@ func resolveTaskLane(p *core.Prog) *tlInfo {
 		return ok && types.Identical(c.Elem(), t.TaskI)
 	}
 	// channel fields: of TaskLane itself and of the per-lane structs of the package it holds in slices
-	var lists []*types.Var    // []chan Task
-	var direct []*types.Var   // chan Task
+	var lists []*types.Var  // []chan Task
+	var direct []*types.Var // chan Task
 	scanStruct := func(n *types.Named, top bool) {
 		for _, f := range structFields(n) {
 			switch ty := f.Type().Underlying().(type) {
